@@ -243,6 +243,28 @@ func TestVerifC02Programs(t *testing.T) {
 		stats.Inc("feat.probe-random")
 	}
 
+	// const-named binders: functions whose variadic / ordinary parameter or receiver carries the name of a
+	// package-level const, qualifying and not qualifying for registers, read in several positions — first
+	// the systematic matrix (binder x what keeps the function from registers), then random probe lists;
+	// the cross product of the process (every constfold x registers x optimizer x cache point for the
+	// default allocation size)
+	binds := func(id string, ps []c02Bind, feats []string) {
+		for _, m := range modes {
+			shrink = func(diverges func(string) bool) string { return c02BindSource(c02ShrinkBinds(ps, diverges)) }
+			runAll(id, c02BindSource(ps), feats, m, false, full(m))
+		}
+	}
+
+	br := verifh.Rand(207)
+
+	binds("bind-matrix", c02BindMatrix(verifh.Thorough(), br), []string{"bind-matrix"})
+	stats.Inc("feat.bind-matrix")
+
+	for i := 0; i < verifh.N(8, 120); i++ {
+		binds(fmt.Sprintf("bind%d", i), c02RandomBinds(br), []string{"bind-random"})
+		stats.Inc("feat.bind-random")
+	}
+
 	// generated programs: the full in-process cross product in every mode
 	n := verifh.N(14, 160)
 	gr := verifh.Rand(201)
